@@ -44,7 +44,7 @@ ASSUMPTIONS = [
 
 
 def budget(tier):
-    return 480 if tier == "quick" else 6600
+    return 400 if tier == "quick" else 6000
 
 
 @st.composite
